@@ -106,7 +106,14 @@ func (w *WholeCtx) Violate(v Violation) {
 	w.mu.Unlock()
 }
 
-const VerifDir = "/verif"
+// VerifDir is where evidence, replays and known_findings.jsonl live (run.sh exports VERIF_DIR = its own directory,
+// so a background run from a snapshot of /verif writes into the snapshot, not into /verif).
+var VerifDir = func() string {
+	if d := os.Getenv("VERIF_DIR"); d != "" {
+		return d
+	}
+	return "/verif"
+}()
 
 type knownEntry struct {
 	Status    string `json:"status"` // known | fixed
